@@ -1637,7 +1637,12 @@ class RecordTensor(ShapedTensor):
                 with :py:class:`torch.no_grad`. Defaults to ``False``.
         """
         if self._ignore(self.__data):
-            self.initialize(obs.shape, device=obs.device, fill=0)
+            self.initialize(
+                obs.shape,
+                device=obs.device,
+                dtype=(obs.dtype if self.__data is None else None),
+                fill=0,
+            )
         self.write(obs, offset=0, inplace=inplace)
         self.incr(1)
 
